@@ -50,7 +50,8 @@ def main():
     props = args or sorted(p for p in os.listdir(INC) if p.startswith("C"))
     head = sh("git -C /repo log --format=%h -1")[1].strip()
     for P in props:
-        for m in sorted(x for x in os.listdir(os.path.join(INC, P)) if re.fullmatch(r"m\d", x)):
+        only = set(filter(None, os.environ.get("HARVEST_ONLY", "").split(",")))
+        for m in sorted(x for x in os.listdir(os.path.join(INC, P)) if re.fullmatch(r"m\d", x) and (not only or x in only)):
             d = os.path.join(INC, P, m)
             meta = json.load(open(os.path.join(d, "meta.json")))
             adapted = os.path.join(d, "patch_adapted_to_head.diff")
